@@ -745,10 +745,30 @@ impl World {
     }
 }
 
+struct Flushed(std::io::BufWriter<std::fs::File>);
+
+impl Flushed {
+    fn create(path: &str) -> anyhow::Result<Flushed> {
+        Ok(Flushed(std::io::BufWriter::new(std::fs::File::create(path)?)))
+    }
+    fn write(&mut self, v: &J) -> anyhow::Result<()> {
+        use std::io::Write;
+        serde_json::to_writer(&mut self.0, v)?;
+        self.0.write_all(b"\n")?;
+        Ok(())
+    }
+    fn flush(&mut self) -> anyhow::Result<()> {
+        use std::io::Write;
+        self.0.flush()?;
+        Ok(())
+    }
+}
+
 fn run(args: &[String]) -> anyhow::Result<()> {
     let cases = util::read_ndjson(&args[0])?;
-    let mut out = util::NdWriter::create(&args[1])?;
-    let mut trace = util::NdWriter::create(&args[2])?;
+    // flushed after every case: the output of completed cases survives a crash of this process
+    let mut out = Flushed::create(&args[1])?;
+    let mut trace = Flushed::create(&args[2])?;
     let progress = &args[3];
     let seed = util::opt_u64(&args[4..], "--seed", 1);
     for (ci, case) in cases.iter().enumerate() {
@@ -795,10 +815,12 @@ fn run(args: &[String]) -> anyhow::Result<()> {
         result["steps_run"] = json!(nrun);
         result["nchecks"] = json!(nchecks);
         out.write(&result)?;
+        out.flush()?;
+        trace.flush()?;
     }
     std::fs::write(progress, "done\n")?;
-    out.finish()?;
-    trace.finish()?;
+    out.flush()?;
+    trace.flush()?;
     Ok(())
 }
 
